@@ -293,6 +293,8 @@ func opLane(w *World, op *Op) {
 		bz = WrapEth(ethMsg, ethTx.Gas(), fullFee, &WrapOpts{NoExtOpt: true, ExtraExtOpt: &evertypes.ExtensionOptionDynamicFeeTx{MaxPriorityPrice: sdkmath.ZeroInt()}})
 	case "non_critical_ext_opt":
 		bz = WrapEth(ethMsg, ethTx.Gas(), fullFee, &WrapOpts{NonCritExtOpt: &evertypes.ExtensionOptionDynamicFeeTx{MaxPriorityPrice: sdkmath.ZeroInt()}})
+	case "non_critical_ext_opt_only": // no critical option at all, a non-critical one instead
+		bz = WrapEth(ethMsg, ethTx.Gas(), fullFee, &WrapOpts{NoExtOpt: true, NonCritExtOpt: &evertypes.ExtensionOptionDynamicFeeTx{MaxPriorityPrice: sdkmath.ZeroInt()}})
 	case "fee_lower":
 		bz = WrapEth(ethMsg, ethTx.Gas(), new(big.Int).Sub(fullFee, big.NewInt(1)), nil)
 	case "fee_higher":
@@ -387,7 +389,7 @@ func opLane(w *World, op *Op) {
 	w.submitBytes(bz, -1, "")
 }
 
-var laneRecipes = []string{"valid", "memo", "timeout", "fee_payer", "fee_granter", "no_ext_opt", "extra_ext_opt", "foreign_ext_opt_only", "non_critical_ext_opt", "fee_lower", "fee_higher",
+var laneRecipes = []string{"valid", "memo", "timeout", "fee_payer", "fee_granter", "no_ext_opt", "extra_ext_opt", "foreign_ext_opt_only", "non_critical_ext_opt", "non_critical_ext_opt_only", "fee_lower", "fee_higher",
 	"fee_other_denom", "gas_higher", "gas_lower", "two_eth", "eth_beside_send", "send_beside_eth_signed", "with_signature", "raw_signature_no_signer_info", "exec_eth", "exec_eth", "exec_exec_sibling_eth",
 	"grant_eth", "exec_vesting", "exec_send"}
 
